@@ -1443,6 +1443,9 @@ namespace awkward {
   NumpyArray::getitem_next(const SliceItemPtr& head,
                            const Slice& tail,
                            const Index64& advanced) const {
+    if (!iscontiguous()) {
+      return contiguous().getitem_next(head, tail, advanced);
+    }
     Index64 carry(shape_[0]);
     struct Error err = kernel::carry_arange<int64_t>(
       kernel::lib::cpu,   // DERIVE
